@@ -31,6 +31,8 @@ PARTIAL = [
     'areas: theorems are about the area vectors / radicands (area = sum sqrt(q) / den); sqrt itself, float rounding, the float32 '
     'accumulators and LAPACK det are runtime, covered by the tolerance of the P-tie',
     'generate_random_mesh (scipy Delaunay) is exercised by the oracle only',
+    'modes agree on straight planar-faced NON-affine cells (truncated cones): oracle only; the theorems C11_*_modes_agree_affine '
+    'cover affine cells (parallelepiped, triangle prism, pyramid over a parallelogram, parallelogram)',
 ]
 RULE = ('(P) per kernel x mode x type N disjoint elements (half: independent random points of the grid {k 2^-16 : |k| <= 2^19}^3, '
         'half: jittered / exact affine images of the reference cell), arbitrary ids, shuffled storage, evaluated by real femio '
@@ -295,6 +297,60 @@ def gen_shell(rng, kind=None, max_cells=3, order=None, id_style=None, jit=None):
             'nodes': [(ids[k], pos[k]) for k in keys], 'blocks': blocks}
 
 
+def planar_cells(rng, ty, n_elem):
+    """straight, planar-faced but NOT affine cells (truncated cones over a planar convex base), all coordinates dyadic;
+    returns the mesh and the exact signed volumes (divergence theorem over the planar faces)"""
+    nodes, rows, exact = [], [], {}
+    nid = 0
+    for k in range(n_elem):
+        d = [F(rng.randint(0, 3), 8) for _ in range(4)]
+        quad = [(F(0) - d[0], F(0) - d[1], F(0)), (F(1) + d[1], F(0) - d[2], F(0)), (F(1) + d[2], F(1) + d[3], F(0)),
+                (F(0) - d[3], F(1) + d[0], F(0))]               # convex, counter-clockwise seen from +z
+        O = (F(rng.randint(0, 8), 8), F(rng.randint(0, 8), 8), F(rng.randint(4, 12), 4))
+        lam = rng.choice([F(1, 2), F(3, 4), F(1, 4)])
+
+        def top(q):
+            return tuple(O[j] + lam * (q[j] - O[j]) for j in range(3))
+        if ty == 'hex':
+            ref = quad + [top(q) for q in quad]
+        elif ty == 'pyr':
+            ref = quad + [O]
+        else:                                                    # femio's prism: bottom triangle clockwise seen from the top
+            tri = [quad[0], quad[2], quad[1]]
+            ref = tri + [top(q) for q in tri]
+        while True:
+            A = [[F(rng.randint(-8, 8), 4) for _ in range(3)] for _ in range(3)]
+            if G.det3(*A) >= F(1, 4):
+                break
+        t = [F(rng.randint(-8, 8), 4) for _ in range(3)]
+        pts = [tuple(t[r] + sum(A[r][c] * q[c] for c in range(3)) for r in range(3)) for q in ref]
+        ids = list(range(nid + 1, nid + len(pts) + 1))
+        nid += len(pts)
+        nodes += list(zip(ids, pts))
+        rows.append((k + 1, ids))
+        vol = F(0)
+        for f in G.FACES[ty]:
+            for i in range(1, len(f) - 1):
+                vol += G.det3(pts[f[0]], pts[f[i]], pts[f[i + 1]])
+        exact[k + 1] = vol / 6
+    rng.shuffle(nodes)
+    return {'kind': 'planar:' + ty, 'order': 'shuf', 'id_style': 'dense', 'nodes': nodes, 'blocks': {ty: rows}}, exact
+
+
+def check_modes_planar(m, exact):
+    out = []
+    sc = scale_of(m)
+    (ty, rows), = m['blocks'].items()
+    for mode in MODES:
+        v = evaluate(m, 'volume', mode)
+        for e, _ in rows:
+            if not abs(v[e] - float(exact[e])) <= 4 * tol_for(ty, mode) * sc ** 3:
+                out.append((f'modes-planar:volume:{ty}', f'volume of a planar-faced {ty} in mode {mode} differs from its exact volume',
+                            {'element': e, 'mode': mode, 'got': v[e], 'exact': float(exact[e])}))
+                break
+    return out
+
+
 def to_polyhedron_mesh(m):
     """the same solid cells as polyhedra with explicit (outward) faces"""
     rows, faces = [], {}
@@ -415,7 +471,11 @@ def check_metamorphic(m, tr, api, mode):
     dim = 2 if is_shell(m) else 3
     m2, emap = apply_transform(m, tr)
     v1 = evaluate(m, api, mode)
-    v2 = evaluate(m2, api, mode)
+    try:
+        v2 = evaluate(m2, api, mode)
+    except Exception as e:      # the original mesh is accepted, its image is not: not invariant
+        return [(f'raises:{tr["kind"]}:{api}', f'{api} (mode={mode}) raises {type(e).__name__} after "{tr["kind"]}" although the '
+                 f'original mesh is accepted', {'error': repr(e)[:300]})]
     fac, N = expected_relation(tr, api, dim)
     sc = scale_of(m, m2)
     exact = tr['kind'] in ('relabel', 'storage')
@@ -788,7 +848,7 @@ def run(ctx):
         ptie_kernels(ctx, ctx.n(200, 2000))
     # ---- tie D (mesh level) + metamorphic oracle
     mismatch = {0: [], 1: []}
-    n_mesh = ctx.n(40, 400) if ctx.driver is not None else ctx.n(120, 800)
+    n_mesh = ctx.n(126, 700) if ctx.driver is not None else ctx.n(250, 1400)
     kinds = ['tet', 'hex', 'mixed', 'prism', 'pyr', 'tet2', 'shell:tri', 'shell:quad', 'shell:mixed', 'shell:polygon',
              'polyhedron', 'mixed', 'shell:mixed', 'batch:hexprism']
     trs = ['relabel', 'storage', 'rigid', 'translate', 'scale', 'reflect']
@@ -836,18 +896,32 @@ def run(ctx):
                 ctx.fail(sig, what, {'check': 'modes-affine', 'mesh': G.to_json(m)}, obs)
             ctx.case((kind, k, 'modes-affine'))
             ctx.count('oracle:modes-affine')
+    # ---- straight, planar-faced, non-affine cells: all modes equal the exact volume
+    for k in range(ctx.n(12, 90)):
+        ty = ['hex', 'pyr', 'prism'][k % 3]
+        m, exact = planar_cells(rng, ty, rng.randint(1, 4))
+        ctx.case(('planar', k, ty), sample={'check': 'modes-planar', 'type': ty, 'n': len(exact)} if k == 0 else None)
+        ctx.count('oracle:modes-planar:' + ty)
+        for sig, what, obs in check_modes_planar(m, exact):
+            ctx.fail(sig, what, {'check': 'modes-planar', 'mesh': G.to_json(m), 'exact': {str(e): str(v) for e, v in exact.items()}}, obs)
     # ---- which Cfg does the tree implement (mixed-mesh assembly)?
     if ctx.driver is not None:
         agree = [c for c in (0, 1) if not mismatch[c]]
         names = {0: 'upstream (values assigned by position inside the type block)', 1: 'fixed (assigned by element id)'}
         ctx.extra['cfg_detected'] = [names[c] for c in agree]
         ctx.extra['cfg_mismatches'] = {names[c]: len(mismatch[c]) for c in (0, 1)}
-        if 1 not in agree:
+        found = any(f['signature'].startswith('mixed-binding:') for f in ctx.failures)
+        if 1 not in agree and 0 in agree and found:
+            # the model with Cfg.upstream reproduces the tree exactly and the oracle has produced the concrete failing
+            # input (reported through ctx.fail): the correspondence itself is intact
+            ctx.notes.append('tree implements Cfg.upstream (finding C11-mixed-binding): C11_storage_perm_mixed does not apply, '
+                             'C11_mixed_counterexample_upstream does; failing inputs reported by the oracle')
+        elif 1 not in agree:
             for case, bad in mismatch[1][:10]:
                 ctx.disagree('per-element values differ from Cfg.fixed' + (' (tree behaves as Cfg.upstream)' if 0 in agree else ''),
                              case, bad, 'Cfg.fixed')
     # ---- bricks: tie D + counts / positivity / sums
-    n_brick = ctx.n(24, 200)
+    n_brick = ctx.n(40, 240)
     for k in range(n_brick):
         ty = ['hex', 'tet', 'quad', 'tri'][k % 4]
         n = [rng.randint(1, 4 if ctx.quick else 7) for _ in range(3)]
@@ -872,7 +946,7 @@ def run(ctx):
                 ctx.disagree('generate_brick positions', case, fd.nodes.data[:3].tolist(), mn[:3])
     # ---- generate_random_mesh (oracle only: scipy Delaunay is not modelled)
     import femio
-    for k in range(ctx.n(4, 30)):
+    for k in range(ctx.n(6, 30)):
         ty = ['tet', 'tri'][k % 2]
         try:
             fd = G.quiet(femio.generate_random_mesh, ty, rng.randint(8, 30), noise_scale=rng.choice([.1, .3]))
@@ -903,6 +977,8 @@ def replay(ctx, obj):
         res = check_brick(case['type'], case['n'], [F(x) for x in case['lengths']])
     elif case.get('check') == 'modes-affine':
         res = check_modes_affine(G.from_json(case['mesh']))
+    elif case.get('check') == 'modes-planar':
+        res = check_modes_planar(G.from_json(case['mesh']), {int(e): F(v) for e, v in case['exact'].items()})
     else:
         m = G.from_json(case['mesh'])
         m['blocks'] = {t: m['blocks'][t] for t in G.ELEMENT_TYPES if t in m['blocks']}
